@@ -237,7 +237,10 @@ theorem resolveOK_of_obs (b a : T) (hb1 : b.kids.length ≠ 1) (ha1 : a.kids.len
         · right; simpa using fun h => hc ⟨hn, h⟩
         · left; simpa using hn
       rw [this]; rfl
-  simp only [h1, h2, h3, h4, h5, h6, hdeg3, Bool.and_self]
+  have h7 : (!(b.noSingle && b.kids.length == 1) || binaryL a.kids) = true := by
+    have : (b.kids.length == 1) = false := by simpa using hb1
+    simp [this]
+  simp only [h1, h2, h3, h4, h5, h6, h7, hdeg3, Bool.and_self]
 
 end Gotree.C07
 
